@@ -872,8 +872,8 @@ V(id='c43-acos-on-fast-path', prop='C43', file='mpmath/math2.py',
   old="acos = _mathfun(math.acos,", new="acos = _mathfun_real(math.acos,",
   expect='fire:F-R3:acos')
 V(id='c43-cbrt-math-cbrt', prop='C43', file='mpmath/math2.py',
-  old="cbrt = _mathfun(lambda x: x**(1./3), lambda z: z**(1./3))",
-  new="cbrt = _mathfun(math.cbrt, lambda z: z**(1./3))",
+  old="cbrt = _mathfun(_cbrt, _cbrt)",
+  new="cbrt = _mathfun(math.cbrt, _cbrt)",
   expect='fire:F-R3:cbrt')
 V(id='c43-wrapper-valueerror-only', prop='C43', file='mpmath/math2.py',
   old="""        try:
@@ -914,10 +914,10 @@ V(id='c43-cospi-complex-quadrant-sign', prop='C43', file='mpmath/math2.py',
   new="    if n == 1: return cmath.sin(z)\n    if n == 2: return -cmath.cos(z)",
   expect='fire:F-R2:cospi')
 V(id='c43-sinpi-both-wrong-quadrant', prop='C43', file='mpmath/math2.py',
-  edits=[("    if n == 2: return -math.sin(r)\n    if n == 3: return -math.cos(r)",
-          "    if n == 2: return -math.sin(r)\n    if n == 3: return math.cos(r)"),
-         ("    if n == 2: return -cmath.sin(z)\n    if n == 3: return -cmath.cos(z)",
-          "    if n == 2: return -cmath.sin(z)\n    if n == 3: return cmath.cos(z)")],
+  edits=[("    if n == 2: return -math.sin(r)\n    return -math.cos(r)",
+          "    if n == 2: return -math.sin(r)\n    return math.cos(r)"),
+         ("    if n == 2: return -cmath.sin(z)\n    return -cmath.cos(z)",
+          "    if n == 2: return -cmath.sin(z)\n    return cmath.cos(z)")],
   expect='fire:F-R2:sinpi')
 V(id='c43-bernoulli-raw-tuple', prop='C43', file='mpmath/ctx_fp.py',
   old="        cache[n] = to_float(mpf_bernoulli(n, 53, 'n'), strict=True)",
@@ -926,9 +926,7 @@ V(id='c43-cut-helper-changes-value', prop='C43', file='mpmath/math2.py',
   old="            return complex(z.real, -0.0)", new="            return complex(-z.real, -0.0)",
   expect='fire:F-R2')
 V(id='c43-benign-rename-lambda-params', prop='C43', file='mpmath/math2.py',
-  edits=[("cbrt = _mathfun(lambda x: x**(1./3), lambda z: z**(1./3))",
-          "cbrt = _mathfun(lambda t: t**(1./3), lambda w: w**(1./3))"),
-         ("cos_sin = _mathfun_real(lambda x: (math.cos(x), math.sin(x)),\n                        lambda z: (cmath.cos(z), cmath.sin(z)))",
+  edits=[("cos_sin = _mathfun_real(lambda x: (math.cos(x), math.sin(x)),\n                        lambda z: (cmath.cos(z), cmath.sin(z)))",
           "cos_sin = _mathfun_real(lambda a: (math.cos(a), math.sin(a)),\n                        lambda b: (cmath.cos(b), cmath.sin(b)))")],
   expect='silent')
 V(id='c43-benign-cut-helper-renamed', prop='C43', file='mpmath/math2.py',
@@ -945,7 +943,7 @@ V(id='c43-benign-wrapper-catches-more', prop='C43', file='mpmath/math2.py',
   expect='silent')
 V(id='c43-benign-new-total-binding', prop='C43', file='mpmath/math2.py',
   old="tanh = _mathfun_real(math.tanh, cmath.tanh)",
-  new="tanh = _mathfun_real(math.tanh, cmath.tanh)\nasinh = _mathfun_real(math.asinh, cmath.asinh)",
+  new="tanh = _mathfun_real(math.tanh, cmath.tanh)\nhypcos = _mathfun_real(math.cosh, cmath.cosh)",
   expect='silent')
 
 # ---------------------------------------------------------------- C38 -------
@@ -1724,3 +1722,30 @@ V(id='c39-mag-mpq-off', prop='C39', file='mpmath/ctx_mp_python.py',
 V(id='c39-mpf-bool-inverted', prop='C39', file='mpmath/ctx_mp_python.py',
   old="    def __nonzero__(s): return s._mpf_ != fzero", new="    def __nonzero__(s): return s._mpf_ == fzero",
   expect='fire:N-R4:__nonzero__')
+
+# ---- C43 F-R6 (imaginary-axis cuts), F-R7, F-R8, required slots (fixes 493258d, 9e55673, d640c82, ab2cc10) ----
+V(id='c43-atan-bare-cmath', prop='C43', file='mpmath/math2.py',
+  old="atan = _mathfun_real(math.atan, lambda z: cmath.atan(_imag_axis_cut(z)))", new="atan = _mathfun_real(math.atan, cmath.atan)",
+  expect='fire:F-R6:atan')
+V(id='c43-asinh-wrong-axis-helper', prop='C43', file='mpmath/math2.py',
+  old="asinh = _mathfun_real(math.asinh, lambda z: cmath.asinh(_imag_axis_cut(z)))",
+  new="asinh = _mathfun_real(math.asinh, lambda z: cmath.asinh(_real_axis_cut(z)))",
+  expect='fire:F-R6:asinh')
+V(id='c43-imag-cut-wrong-side', prop='C43', file='mpmath/math2.py',
+  old="        if z.imag < 0:\n            return complex(-0.0, z.imag)\n        return complex(0.0, z.imag)",
+  new="        if z.imag > 0:\n            return complex(-0.0, z.imag)\n        return complex(0.0, z.imag)",
+  expect='fire:F-R6:atan')
+V(id='c43-atanh-bare-cmath', prop='C43', file='mpmath/math2.py',
+  old="atanh = _mathfun(math.atanh, lambda z: cmath.atanh(_real_axis_cut(z)))", new="atanh = _mathfun(math.atanh, cmath.atanh)",
+  expect='fire:F-R6:atanh')
+V(id='c43-sinpi-falls-through', prop='C43', file='mpmath/math2.py',
+  old="    if n == 2: return -math.sin(r)\n    return -math.cos(r)", new="    if n == 2: return -math.sin(r)\n    if n == 3: return -math.cos(r)",
+  expect='fire:F-R7:_sinpi_real')
+V(id='c43-cbrt-uncorrected', prop='C43', file='mpmath/math2.py',
+  old="    if y:\n        # the exponent 1/3 is rounded: one Newton step removes the error\n        y -= (y*y*y - x)/(3*y*y)\n",
+  new="", expect='fire:F-R8:_cbrt')
+V(id='c43-slot-removed', prop='C43', file='mpmath/ctx_fp.py',
+  old="    acosh = staticmethod(math2.acosh)\n", new="", expect='fire:F-R4:FPContext')
+V(id='c43-new-reciprocal-composition', prop='C43', file='mpmath/functions/functions.py',
+  old="def acsch(ctx, z): return ctx.asinh(ctx.one / z)", new="def acsch(ctx, z): return ctx.asin(ctx.one / (ctx.j*z)) * ctx.j",
+  expect='fire:F-R8:acsch')
